@@ -225,16 +225,98 @@ func (u *Unit) typeID(t types.Type) T {
 	if p, ok := t.(*types.Pointer); ok {
 		return app(SInt, "ptrTo", u.typeID(p.Elem()))
 	}
+	// generic named type applied to arguments: constructor function
+	if n, ok := t.(*types.Named); ok && n.TypeArgs().Len() > 0 {
+		var args []T
+		for i := 0; i < n.TypeArgs().Len(); i++ {
+			args = append(args, u.typeID(n.TypeArgs().At(i)))
+		}
+		return u.typeCon("tyc!"+smtName(typeKey(n.Origin().Obj().Type())), args)
+	}
+	// composite type mentioning type parameters: constructor over them
+	if tps := typeParamsIn(t); len(tps) > 0 {
+		var args []T
+		for _, tp := range tps {
+			args = append(args, u.typeID(tp))
+		}
+		return u.typeCon("tyf!"+smtName(typeKey(t)), args)
+	}
 	k := typeKey(t)
 	name := "ty!" + smtName(k)
 	if !u.decls.Has(name) {
 		id := u.eng.typeConstID(k)
-		u.decls.Add(name, fmt.Sprintf("(define-fun %s () Int %d)", name, id))
+		u.decls.Add(name, fmt.Sprintf("(define-fun %s () Int %d)\n(assert (= (tykind %s) %d))", name, id, name, id))
 		if _, isIface := t.Underlying().(*types.Interface); isIface {
 			u.decls.Add(name+"!iface", fmt.Sprintf("(assert (isIfaceType %s))", name))
 		}
 	}
 	return T{name, SInt}
+}
+
+// typeCon applies a type-constructor function; different constructors have
+// different kinds (hence different results), constructor results are non-zero.
+func (u *Unit) typeCon(fn string, args []T) T {
+	if !u.decls.Has(fn) {
+		k := u.eng.typeConstID(fn)
+		var ps, as, qs []string
+		for i := range args {
+			ps = append(ps, "Int")
+			as = append(as, fmt.Sprintf("a%d", i))
+			qs = append(qs, fmt.Sprintf("(a%d Int)", i))
+		}
+		call := "(" + fn + " " + strings.Join(as, " ") + ")"
+		u.decls.Add(fn, fmt.Sprintf("(declare-fun %s (%s) Int)\n(assert (forall (%s) (! (and (= (tykind %s) %d) (not (= %s 0))) :pattern (%s))))",
+			fn, strings.Join(ps, " "), strings.Join(qs, " "), call, k, call, call))
+		u.eng.typeConKind[fn] = k
+	}
+	r := app(SInt, fn, args...)
+	// ground instance of the kind axiom (keeps the quantifier-free oracle sharp)
+	if !strings.Contains(r.S, "q!") {
+		u.decls.Add("kind:"+r.S, fmt.Sprintf("(assert (and (= (tykind %s) %d) (not (= %s 0))))", r.S, u.eng.typeConKind[fn], r.S))
+	}
+	return r
+}
+
+func typeParamsIn(t types.Type) []*types.TypeParam {
+	var out []*types.TypeParam
+	seen := map[*types.TypeParam]bool{}
+	var walk func(t types.Type, depth int)
+	walk = func(t types.Type, depth int) {
+		if depth > 6 || t == nil {
+			return
+		}
+		switch x := types.Unalias(t).(type) {
+		case *types.TypeParam:
+			if !seen[x] {
+				seen[x] = true
+				out = append(out, x)
+			}
+		case *types.Pointer:
+			walk(x.Elem(), depth+1)
+		case *types.Slice:
+			walk(x.Elem(), depth+1)
+		case *types.Array:
+			walk(x.Elem(), depth+1)
+		case *types.Map:
+			walk(x.Key(), depth+1)
+			walk(x.Elem(), depth+1)
+		case *types.Chan:
+			walk(x.Elem(), depth+1)
+		case *types.Signature:
+			for i := 0; i < x.Params().Len(); i++ {
+				walk(x.Params().At(i).Type(), depth+1)
+			}
+			for i := 0; i < x.Results().Len(); i++ {
+				walk(x.Results().At(i).Type(), depth+1)
+			}
+		case *types.Named:
+			for i := 0; i < x.TypeArgs().Len(); i++ {
+				walk(x.TypeArgs().At(i), depth+1)
+			}
+		}
+	}
+	walk(t, 0)
+	return out
 }
 
 func (e *Engine) typeConstID(k string) int {
@@ -251,12 +333,14 @@ const preludeSMT = `(declare-datatypes ((Iface 0)) (((mk_iface (ity Int) (ival I
 (define-fun nil_iface () Iface (mk_iface 0 0))
 (declare-datatypes ((Slice 0)) (((mk_slice (sarr Int) (soff Int) (slen Int) (scap Int)))))
 (define-fun nil_slice () Slice (mk_slice 0 0 0 0))
-(define-fun wfSlice ((s Slice)) Bool (and (<= 0 (soff s)) (<= 0 (slen s)) (<= (slen s) (scap s)) (=> (= (sarr s) 0) (= (scap s) 0))))
+(define-fun wfSlice ((s Slice)) Bool (and (<= 0 (soff s)) (<= 0 (slen s)) (<= (slen s) (scap s)) (<= (+ (soff s) (scap s)) 4611686018427387904) (=> (= (sarr s) 0) (= (scap s) 0))))
 (declare-fun ptrTo (Int) Int)
 (declare-fun elemOf (Int) Int)
 (assert (forall ((t Int)) (! (= (elemOf (ptrTo t)) t) :pattern ((ptrTo t)))))
 (assert (forall ((t Int)) (! (< (ptrTo t) 0) :pattern ((ptrTo t)))))
 (declare-fun isIfaceType (Int) Bool)
+(declare-fun tykind (Int) Int)
+(assert (forall ((t Int)) (! (= (tykind (ptrTo t)) 1) :pattern ((ptrTo t)))))
 (declare-fun zeroOf (Int) Int)
 (declare-fun boxStr (String) Int)
 (declare-fun unboxStr (Int) String)
